@@ -791,6 +791,8 @@ def run(ctx: Ctx) -> None:
 
 # ---------------------------------------------------------------------------
 WITNESSES = [
+    {"name": "seeded-C06-12", "file": "mda/composed_mda_settings.py", "old": "        \"\"\"Cascade settings to the sub-MDAs.\"\"\"\n        for sub_mda in self._sub_mdas:\n            for setting in self._settings_names_to_be_cascaded:\n                value = self.__getattribute__(setting)\n                sub_mda.settings.__setattr__(setting, value)\n        return self\n", "new": "        \"\"\"Cascade settings to the sub-MDAs.\"\"\"\n        # The values have already been validated by the current model,\n        # so the settings of the sub-MDAs are updated without validating them again.\n        values = {\n            setting: getattr(self, setting)\n            for setting in self._settings_names_to_be_cascaded\n        }\n        for sub_mda in self._sub_mdas:\n            sub_mda.settings.__dict__.update(values)\n        return self\n", "expect": "6.6", "note": "Cascading composed-MDA settings by writing into the sub-MDA settings __dict__ (s"},
+    {"name": "seeded-C06-11", "file": "mda/base_mda_solver.py", "old": "                        initial_norm = float(norm(residual[slice_]))\n                        initial_norm = initial_norm if initial_norm != 0.0 else 1.0\n                        scaling_data.append((slice_, initial_norm))\n\n            normalized_norms = []\n            for current_slice, initial_norm in scaling_data:\n                normalized_norms.append(norm(residual[current_slice]) / initial_norm)\n\n            normed_residual = max(normalized_norms)\n\n", "new": "                        initial_norm = float(norm(residual[slice_]))\n                        # A sub-residual that is initially null cannot be scaled.\n                        if initial_norm != 0.0:\n                            scaling_data.append((slice_, initial_norm))\n\n            normalized_norms = [\n                norm(residual[current_slice]) / initial_norm\n                for current_slice, initial_norm in scaling_data\n            ]\n\n            normed_residual = max(normalized_norms, default=0.0)\n\n", "expect": "6.1", "note": "INITIAL_SUBRESIDUAL_NORM scaling drops the coupling variables whose first sub-re"},
     {"name": "seeded-C06-9", "file": "core/derivatives/jacobian_assembly.py", "old": "                        elif isinstance(jacobian_copy, sparse_classes):", "new": "                        elif isinstance(jacobian_copy, csr_matrix):", "expect": "6.5"},
     {"name": "recorded-residual-is-the-output", "file": BS, "old": "                self._current_residuals[name] = residual", "new": "                self._current_residuals[name] = local_data_array", "expect": "6.5"},
     {"name": "resolved-and-residual-variables-swapped", "file": BS, "old": "                if name in self._resolved_variable_names:\n                    input_data_array", "new": "                if name not in self._resolved_variable_names:\n                    input_data_array", "expect": "6.5"},
